@@ -49,12 +49,14 @@ value = st.one_of(
     st.builds(lambda dt, v: {"t": "arr", "dt": dt, "v": v}, st.sampled_from(["i1", "u1"]), st.sampled_from([127, 126, 0, 1])),
     st.builds(lambda v: {"t": "bool", "v": v}, st.booleans()),
 )
+bad_value = st.sampled_from(["object", "nulbytes", "ragged", "dict"]).map(lambda h: {"t": "bad", "v": h})
 small_value = st.one_of(st.builds(lambda v: {"t": "int", "v": v}, st.integers(0, 9)), value)
+set_value = st.one_of(small_value, small_value, small_value, small_value, small_value, small_value, bad_value)
 tgt = st.one_of(ref, ref, ref, ref, ref, ref, ref, ref, anypath)  # mostly existing nodes
 
 data_op = st.one_of(
-    st.tuples(st.just("set"), ref, anypath, small_value),
-    st.tuples(st.just("set"), ref, anypath, small_value),
+    st.tuples(st.just("set"), ref, anypath, set_value),
+    st.tuples(st.just("set"), ref, anypath, set_value),
     st.tuples(st.just("mkgrp"), ref, anypath),
     st.tuples(st.just("mkgrp"), ref, anypath),
     st.tuples(st.just("del"), ref, tgt),
@@ -69,8 +71,9 @@ data_op = st.one_of(
     st.tuples(st.just("touch"), ref, st.integers(0, 3), small_value),
     st.tuples(st.just("copyinto"), ref, relpath),
     st.tuples(st.just("renamesfx"), ref, st.sampled_from(["b", ".old", "-1", "a", "_"]), st.booleans()),
-    st.tuples(st.just("revive"), ref, st.integers(0, 3), ref, small_value, st.one_of(st.none(), st.none(), seg)),
-    st.tuples(st.just("revive"), ref, st.integers(0, 3), ref, small_value, st.one_of(st.none(), st.none(), seg)),
+    st.tuples(st.just("revive"), ref, st.integers(0, 3), ref, set_value, st.one_of(st.none(), st.none(), seg)),
+    st.tuples(st.just("revive"), ref, st.integers(0, 3), ref, set_value, st.one_of(st.none(), st.none(), seg)),
+    st.tuples(st.just("badattr"), ref, ref),
 )
 boundary_op = st.one_of(
     st.just(("commit",)), st.just(("commit",)), st.just(("commit",)), st.just(("commit",)),
@@ -103,6 +106,10 @@ def storable(spec, as_attr=False):
     """Dataset values plain h5py itself refuses (bytes with embedded NUL) are outside the domain:
     h5py's create_dataset(name, data=bad) leaves an empty dataset behind while g[name]=bad does not,
     so no single-tree reference behaviour exists for them. Map them to the opaque blob of the same bytes."""
+    if spec["t"] == "bad":
+        # refused by h5py: kept as it is for datasets (g[name] = bad fails on a plain tree without any effect);
+        # attribute writes are not atomic in h5py itself, so no reference behaviour exists there
+        return {"t": "int", "v": 0} if as_attr else spec
     try:
         expected_canon(spec, as_attr)
         return spec
@@ -182,6 +189,16 @@ def bind(op, tree):
         if k2 == "copy":
             b["without_attrs"] = False
         return [b]
+    if kind == "badattr":  # delete an attribute, then a write to it that HDF5 refuses: it must stay deleted
+        allp = ["/"] + nodes
+        withattrs = [p for p in allp if tree.lookup(p).attrs]
+        if not withattrs:
+            return []
+        p = withattrs[op[1] % len(withattrs)]
+        keys = sorted(tree.lookup(p).attrs)
+        key = keys[op[2] % len(keys)]
+        return [dict(op="delattr", abs=p, key=key, macro="badattr"),
+                dict(op="setattr", abs=p, key=key, v={"t": "bigattr"}, macro="badattr")]
     if kind == "revive":  # something new at (or below) a path that was deleted or moved away earlier
         dead = [p for p in tree.dead if tree.lookup(p) is None]
         pre, cand = [], nodes
@@ -492,7 +509,7 @@ def _touch_paths(b):
     return []
 
 
-DATA_KINDS = {"set", "mkgrp", "del", "setattr", "delattr", "copy", "move", "copyinto", "replace", "touch", "renamesfx", "revive"}
+DATA_KINDS = {"set", "mkgrp", "del", "setattr", "delattr", "copy", "move", "copyinto", "replace", "touch", "renamesfx", "revive", "badattr"}
 
 
 class Session:
